@@ -45,10 +45,9 @@ Theorem gen_get_inverse_roots_with_default_eq_model :
                             end) orders).
 Proof.
   intros ov orders hod. unfold GenC01.get_inverse_roots_with_default. destruct ov as [z|l].
-  - apply f_equal. destruct (Z.eqb_spec z 0).
-    + rewrite List.map_map. reflexivity.
-    + rewrite list_mul_singleton, List.map_map. reflexivity.
-  - induction orders as [|o orders IH]; [reflexivity|].
+  - (* scalar override: whatever the shape of the test (== 0 / != 0, conditional expression / early return) *)
+    cbv zeta. destruct (Z.eqb_spec z 0); cbn [negb]; rewrite ?list_mul_singleton, List.map_map; reflexivity.
+  - cbv zeta. induction orders as [|o orders IH]; [reflexivity|].
     cbn [List.map py_mapM]. rewrite IH. clear IH.
     unfold py_len. destruct (Nat.leb_spec (length l) o) as [Hle|Hlt].
     + cmp_cases; try (exfalso; lia); rewrite !bind_ret; reflexivity.
